@@ -29,14 +29,17 @@ NONE = "std::prelude::v1::None"
 class Hooks:
     """Inline the operator evaluators and the small recognisers; keep everything else opaque."""
 
-    def __init__(self, inline_prefixes, inline_names=()):
+    def __init__(self, inline_prefixes, inline_names=(), opaque_names=()):
         self.prefixes = tuple(inline_prefixes)
         self.names = set(inline_names)
+        self.opaque_names = set(opaque_names)
 
     def opaque(self, fn):
+        if fn.path in self.opaque_names:
+            return True
         if fn.path in self.names:
             return False
-        return not fn.path.startswith(self.prefixes)
+        return not (self.prefixes and fn.path.startswith(self.prefixes))
 
 
 def node_term(shape):
@@ -80,8 +83,10 @@ class EvalNode:
     def __init__(self, prog):
         self.prog = prog
         self.fn = prog.lib_fn(ALG + "eval_node")
-        self.hooks = Hooks([OPS], inline_names=[ALG + "eval_hybrid_quantifier", ALG + "is_attractor_pattern",
-                                                ALG + "is_fixed_point_pattern"])
+        # helpers of the algorithm module (pattern recognisers, quantifier wrapper, anything a refactoring extracts)
+        # are inlined; the recursion itself and the two library-heavy shortcut computations stay opaque
+        self.hooks = Hooks([OPS, ALG], opaque_names=[ALG + "eval_node", ALG + "compute_attractor_states",
+                                                     ALG + "compute_steady_states"])
         self.engine = terms.Engine(prog, inline=True, hooks=self.hooks)
         self.summ = self.engine.summary(self.fn) if self.fn else None
         self.params = self.fn.param_names() if self.fn else []
